@@ -1797,7 +1797,26 @@ impl SysComp {
                     // proof stamps
                     for (j, c) in w.links.iter().enumerate() {
                         if j < pre.len() && c.last_ack_or_rtt_sample_ms != pre[j].proof && !reset[j] {
-                            let earned = pt == SRTLA_TYPE_ACK && parse_srtla_ack(&data).iter().any(|s| pre[j].log.contains(&(*s as i32)));
+                            // "an SRTLA ACK this link EARNED": replayed entry by entry on a ghost of the packet logs - a
+                            // number is credited to the arrival link if that link holds it, otherwise to the first other
+                            // holder in index order, and to nobody else (a duplicate-probe copy in a latched link's log
+                            // earns nothing while the carrier still holds the number)
+                            let earned = pt == SRTLA_TYPE_ACK && {
+                                let nl = w.links.len().min(pre.len());
+                                let mut logs: Vec<Vec<i32>> = pre.iter().map(|p| p.log.clone()).collect();
+                                let mut credited = false;
+                                for sq in parse_srtla_ack(&data) {
+                                    let si = sq as i32;
+                                    let h = if logs[i].contains(&si) { Some(i) } else { (0..nl).find(|k| *k != i && logs[*k].contains(&si)) };
+                                    if let Some(h) = h {
+                                        logs[h].retain(|x| *x != si);
+                                        if h == j {
+                                            credited = true;
+                                        }
+                                    }
+                                }
+                                credited
+                            };
                             let echoed = pt == SRTLA_TYPE_KEEPALIVE && j == i && pre[j].waiting && {
                                 let ts = extract_keepalive_timestamp(&data);
                                 ts.is_some_and(|ts| now.saturating_sub(ts) > 0 && now.saturating_sub(ts) <= 10_000)
